@@ -7,8 +7,8 @@ from io_drawer.drawer_type import MEX_DRAWER_TYPE, NIMITZ_DRAWER_TYPE
 
 FUNCTIONS = ["io_drawer.hlog.parse_hlog_data", "io_drawer.hlog.get_hlog_fields", "pel.hexdump.hexdump", "DataStream.check_range/get_int"]
 
-TABLE_A = [(1, "fa_one"), (2, "fa two (x/y)"), (1, "fa-three"), (2, "fa_four"), (2, "Fan 5 RPM."), (1, "fa_six")]
-TABLE_B = [(2, "fb_one"), (1, "fb_two"), (1, "fb_three"), (2, "fb_four")]
+TABLE_A = [(1, "fa_one"), (2, "fa two (x/y)"), (1, "fa-three"), (2, "fa_four"), (2, "L\u00fcfter 5 RPM."), (1, "fa_six")]
+TABLE_B = [(2, "fb_one"), (1, "pad"), (1, "pad"), (2, "fb_four"), (1, "pad")]       # identical entries repeat (reserved bytes)
 
 
 def header_text(table, style=0):
@@ -36,13 +36,21 @@ HARNESSES = [
     {"fn": "h_fields", "cases": CASES, "quick_cases": ["A:w2", "A:len", "mex:w17", "mex:long", "B:len", "A:tail", "A:z0", "mex:z16"], "timeout": {"quick": 120, "thorough": 400}},
     {"fn": "h_two_tables", "cases": ["AB", "BA"], "timeout": {"quick": 90, "thorough": 300}},
 ]
-BOUNDS = {"tables": "two synthetic field tables (sizes 1,2,1,2,2,1 and 2,1,1,2; both accepted header layouts) and both shipped tables",
+BOUNDS = {"tables": "two synthetic field tables (sizes 1,2,1,2,2,1 with a non-ASCII name, and 2,1,1,2,1 with a repeated entry; both accepted header layouts) and both shipped tables",
           "data": "a window of 3 symbolic bytes at a catalogue offset with the length fixed at the full record + 2, or the length "
                   "symbolic from 0 to full + 2 with concrete non-zero bytes; one 70-byte record; the window surrounded by zeros only; "
                   "field names with blanks and punctuation in the synthetic table",
           "history": "the same header path serving a different table on the next call"}
 ASSUMPTIONS = ["open() of the header file replaced by an in-memory file for the synthetic tables (E5)"]
 OUTSIDE = ["arbitrary header-file grammars", "more than 3 symbolic data bytes at once"]
+
+
+def _open(text):
+    """open() stand-in: the header file is UTF-8 on disk; encoding / errors arguments are honoured"""
+    def fake(p, mode="r", *a, **k):
+        raw = text.encode("utf-8")
+        return _F(raw.decode(k.get("encoding") or "utf-8", k.get("errors") or "strict"))
+    return fake
 
 
 class _F:
@@ -76,7 +84,7 @@ def oracle(table, data_cps, L):
 def run(table_name, data):
     if table_name in ("A", "B"):
         text = header_text(TABLE_A if table_name == "A" else TABLE_B, 0 if table_name == "A" else 1)
-        with patched(hlog, open=lambda p, *a, **k: _F(text)):
+        with patched(hlog, open=_open(text)):
             return hlog.parse_hlog_data(data, "/fixtures/%s.h" % table_name)
     return hlog.parse_hlog_data(data, shipped(table_name)[0])
 
@@ -158,7 +166,7 @@ def h_two_tables() -> bool:
     def fake_open(p, *a, **k):
         t = texts[min(n[0], 1)]
         n[0] += 1
-        return _F(t)
+        return _open(t)(p, *a, **k)
     try:
         with patched(hlog, open=fake_open):
             l1 = hlog.parse_hlog_data(data, "/fixtures/same_path.h")
